@@ -194,6 +194,9 @@ func probeSuite(cfgs ...*cors.Config) []reqT {
 				reqT{method: "OPTIONS", hdrs: http.Header{"Origin": {og}, "Access-Control-Request-Method": {"PUT"}}},
 				reqT{method: "OPTIONS", hdrs: http.Header{"Origin": {og}, "Access-Control-Request-Method": {"UNLISTED"}, "Access-Control-Request-Headers": {"x-unlisted"}}},
 				reqT{method: "OPTIONS", hdrs: http.Header{"Origin": {og}, "Access-Control-Request-Method": {"GET"}, "Access-Control-Request-Headers": {"authorization,x-foo"}, "Access-Control-Request-Private-Network": {"true"}}},
+				// a private-network request whose method / header step fails afterwards
+				reqT{method: "OPTIONS", hdrs: http.Header{"Origin": {og}, "Access-Control-Request-Method": {"UNLISTED"}, "Access-Control-Request-Private-Network": {"true"}}},
+				reqT{method: "OPTIONS", hdrs: http.Header{"Origin": {og}, "Access-Control-Request-Method": {"GET"}, "Access-Control-Request-Headers": {"x-unlisted"}, "Access-Control-Request-Private-Network": {"true"}}},
 				// reaches the request-headers step (safelisted method, no PNA request): shows the debug-mode list
 				reqT{method: "OPTIONS", hdrs: http.Header{"Origin": {og}, "Access-Control-Request-Method": {"GET"}, "Access-Control-Request-Headers": {"x-unlisted"}}},
 			)
